@@ -63,11 +63,18 @@ def scenarios(nmax, bmax, wmax):
     for entry, n, b, w in cs.configs(nmax, bmax, wmax):
         if n == 0:
             continue
-        for fp in fault_plans(n):
+        for fi, fp in enumerate(fault_plans(n)):
             out.append(cs.make(entry, n, b, w, faults=fp))
+            keyed = entry in ('pf1', 'pft', 'parmap') and fi % 3 == 0
+            if keyed:
+                out.append(cs.make(entry, n, b, w, faults=fp, key=True))
             if entry in CATCH_ENTRIES:
                 for catch in ('true', 'user', 'tuple', 'exception'):
                     out.append(cs.make(entry, n, b, w, faults=fp, catch=catch))
+                    if keyed:
+                        # .items() through a catching prefetch
+                        out.append(cs.make(entry, n, b, w, faults=fp, catch=catch,
+                                           key=True))
         # consumer shutdown racing a failure
         if n >= 2:
             out.append(cs.make(entry, n, b, w, faults={'fn': {str(n - 1): 'user'}},
